@@ -6,6 +6,28 @@ V = os.path.dirname(os.path.dirname(os.path.abspath(__file__)))
 TEXT = {
  "C01": ("rapidcheck-generated histories vs a reference model + exhaustive order-type lattice of bounds",
          "Generated-input search: interval membership / intersection / emptiness decided on the complete order-type lattice of the bounds (exhaustive) and on random reals; construct/copy/assign/set/constraint histories (incl. raising calls, list- and owner-level routes) against a reference model after every step; auto-correcting parameter against the nearest-accepted-value oracle; plus a run-time monitor hooked into Parameter. Exploration, not proof: holds on everything generated."),
+ "C02": ("stateful model-based testing (rapidcheck) of ParameterList histories",
+         "Generated histories of ~30 operations over three lists and an object-identity model (sharing vs copies); after every operation the full observable state of every list is compared with the model; atomicity of the three bulk value setters is decided by comparing every value after a raising call; owner-level routes check the notification argument. Exploration."),
+ "C03": ("stateful model-based testing (rapidcheck) of alias / unalias / bulk-alias / copy / assign / rename histories",
+         "Generated histories over 1-3 objects with 2-6 parameters against a forest model (links, propagated values, intersected constraints, independent set); all views are compared after every operation; termination of bulk aliasing is decided by a CPU-time watchdog. Exploration."),
+ "C04": ("differential testing against reference triple loops over generated shapes x storage classes; lap vs brute force over all permutations (exhaustive for ternary matrices up to 3x3)",
+         "Every matrix operation of the statement is compared with a definition-level reference on generated shapes 0..7 (degenerate shapes forced), integer (exact) and real entries, all combinations of the three storage classes, unsized / wrongly sized outputs and non-conformable operands; the assignment solver against brute force with dual certificate, exhaustively for all ternary cost matrices up to 3x3. Exploration."),
+ "C05": ("generated matrices (integer with exact Bareiss determinant, prescribed singular values, permuted triangular, near-singular) vs backward-error oracles; small integer matrices exhaustively",
+         "P.A=L.U, residual, indicator, determinant and singularity-signal oracles with calibrated forward-error bounds on four generator families, n=1..10, every storage class; all small integer matrices (n<=2 entries -2..2, n=3 entries -1..1) exhaustively. Exploration."),
+ "C06": ("generated matrix families (dense, symmetric, companion, rotation blocks, Jordan, graded) vs residual / structure / spectrum oracles; all {-1,0,1} matrices up to 3x3 exhaustively",
+         "Residual A.V=V.D, block structure, trace/determinant/spectrum (Bauer-Fike radius), symmetric-path ordering and orthonormality, exp/pow vs exact or long-double references; exhaustive over all 19 767 ternary matrices up to 3x3 (which is where the hqr2 non-termination was found). Exploration."),
+ "C07": ("rapidcheck-generated vectors vs exact (__int128 / long double) definitions, std::set models and metamorphic relations for log-space reductions",
+         "About 70 functions grouped in 14 laws: exact references for integer inputs, forward-error bounds for reals, documented exceptions for empty/mismatched input, shift-equivariance / bounds / finiteness for the log-domain reductions, exhaustive lattice for pairwise logsum. Exploration."),
+ "C08": ("dense grids + random points + seeded branch points vs Boost.Math long double reference, exact identities and a bracket oracle for quantiles",
+         "Accuracy vs an independent high-precision reference (self-checked against glibc and a series), range/end values, monotonicity on adjacent points, exact identities, quantile inversion by bracketing, documented error signals in the invalid region. Exploration over ~1e6 points per quick run."),
+ "C11": ("rapidcheck-generated bound configurations / values / coordinates vs long-double formulas, finite differences and the chain rule; exhaustive configuration lattice",
+         "Round trip, monotonicity, derivatives of the transforms; wrapped functions with analytic derivatives checked for value, feasibility of the back-transformed point, chain rule, parameters right after wrapping, placebo pass-through; exhaustive lattice of the ten configurations x bounds x start positions x wrapper kinds. Exploration."),
+ "C12": ("stateful generated update histories on polynomial functions with analytic derivatives; exhaustive configuration lattice; step-halving metamorphic law",
+         "Transparency (bitwise parameters, value) after every update through all six entry points; derivatives vs analytic ones within rounding/truncation bounds by stencil class; convergence order by halving the step; delegation for non-selected variables. Exploration."),
+ "C19": ("rapidcheck-generated parameter / probability vectors vs long-double definitions of the three codings; exhaustive dyadic lattice for n<=7",
+         "Forward law (non-negative, sums to one, product formula), inverse law with a conditioning-aware bound, left-inverse / separation for injectivity, copy independence, ordered variant; exhaustive over dyadic parameter lattices for dimensions 1..7. Exploration."),
+ "C20": ("stateful model-based testing against a bitset + component-list model; bounded-exhaustive enumeration of all operation sequences (length 2 quick / 3 thorough over a 0..6 universe) for four coordinate types",
+         "Histories of add/restrict/filter/clear/copy/assign on MultiRange and RangeSet compared with an independent point-set model after every operation, for int, unsigned, size_t and double; Range predicates exhaustively over all pairs in 0..6; deep-copy independence via address and live-instance checks. Exploration; exhaustive up to the stated sequence length."),
 }
 NOTE = "Trusted: the reference models/oracles in harness/, clang++ ASan/UBSan build of /repo's working tree with -DBPP_CORE_VERIF, rapidcheck. Bounds per law are in the evidence file."
 
